@@ -133,6 +133,54 @@
                 (Err(e), Some((bo, x))) => report("a solution is returned when a satisfying assignment exists", format!("{} although {:?} satisfies the text with objective {}", e, x, bo)),
             }
         }
+        // ---- second family: continuous variables (no enumeration possible): the returned point is checked against the description, and a grid of
+        // candidate points gives a one-sided test of optimality and of the infeasible verdict ----
+        let (mut csolved, mut cinf) = (0u64, 0u64);
+        for round in 0..160 {
+            let vars: Vec<(String, VariableType)> = vec![("a".to_string(), VariableType::Real(-3.0, 3.0)), ("b".to_string(), VariableType::NonNegativeReal(0.0, 4.0))];
+            let mut cons: Vec<C> = vec![];
+            for _ in 0..(1 + r.next(3)) { let k = [0.0, 1.0, 2.0, 3.0, -1.0, 0.5][r.next(6)]; cons.push(C::Cmp(term(&mut r, 2, 2), cmps[r.next(2)].clone(), T::N(k))); }
+            let obj_t = T::Add(bx(T::Mul(bx(T::N([1.0, 2.0, -1.0][r.next(3)])), bx(T::V(0)))), bx(T::Mul(bx(T::N([1.0, -2.0, 0.5][r.next(3)])), bx(T::V(1)))));
+            let obj_t = if round % 3 == 0 { T::Add(bx(obj_t), bx(term(&mut r, 2, 1))) } else { obj_t };
+            let dir = if r.next(2) == 0 { OptimizationType::Max } else { OptimizationType::Min };
+            let m = M { vars, obj: Some((dir.clone(), obj_t.clone())), cons };
+            let src = source(&m);
+            cases += 1;
+            distinct.insert(src.clone());
+            let esc = |s: &str| s.replace('\\', "\\\\").replace('"', "'").replace('\n', "\\n").replace('\t', " ");
+            let mut report = |clause: &str, detail: String| {
+                if fails < 40 { println!("WITNESS-FAIL {{\"fn\": \"RoocSolver::solve_using(auto_solver)\", \"clause\": \"{}\", \"source\": \"{}\", \"detail\": \"{}\"}}", clause, esc(&src), esc(&detail)); }
+                fails += 1;
+            };
+            // candidate points: a grid with step 0.5; a candidate counts only if it satisfies every constraint with a margin (robustly feasible)
+            let robust = |c: &C, x: &[f64]| match c { C::Cmp(l, k, rr) => { let (a, b) = (val(l, x), val(rr, x)); match k { Comparison::LessOrEqual => a <= b - 1e-4, Comparison::GreaterOrEqual => a >= b + 1e-4, _ => false } } _ => false };
+            let mut best: Option<(f64, Vec<f64>)> = None;
+            for ia in 0..=12 { for ib in 0..=8 {
+                let x = vec![-3.0 + 0.5 * ia as f64, 0.5 * ib as f64];
+                if m.cons.iter().all(|c| robust(c, &x)) {
+                    let o = val(&obj_t, &x);
+                    let better = match &best { None => true, Some((bo, _)) => if matches!(dir, OptimizationType::Max) { o > *bo } else { o < *bo } };
+                    if better { best = Some((o, x)); }
+                }
+            } }
+            let got = match RoocSolver::try_new(src.clone()) { Ok(s) => s.solve_using(auto_solver), Err(e) => { report("the corpus text parses", e.to_string_from_source(&src)); continue; } };
+            match got {
+                Ok(s) => {
+                    csolved += 1;
+                    let x: Vec<f64> = m.vars.iter().map(|(n, t)| match s.value_of(n) { Some(v) => { let f: f64 = v.into(); f } None => match t { VariableType::Real(lo, _) => *lo, _ => 0.0 } }).collect();
+                    for (ci, c) in m.cons.iter().enumerate() { if !holds(c, &x) { report("the returned values satisfy every constraint of the text under the language's semantics", format!("constraint #{} fails at {:?}", ci, x)); } }
+                    if x[0] < -3.0 - 1e-6 || x[0] > 3.0 + 1e-6 || x[1] < -1e-6 || x[1] > 4.0 + 1e-6 { report("the returned values lie in the declared domains", format!("{:?}", x)); }
+                    let o = val(&obj_t, &x);
+                    if (o - s.value()).abs() > 1e-6 * (1.0 + o.abs()) { report("the reported objective equals the objective of the text at the returned values", format!("objective at {:?} is {}, reported {}", x, o, s.value())); }
+                    if let Some((bo, bx_)) = &best { let worse = if matches!(dir, OptimizationType::Max) { s.value() < bo - 1e-6 } else { s.value() > bo + 1e-6 }; if worse { report("no satisfying assignment has a strictly better objective", format!("reported {}, but {:?} satisfies the text with objective {}", s.value(), bx_, bo)); } }
+                }
+                Err(RoocSolverError::Solver(SolverError::Infeasible)) => { cinf += 1; if let Some((bo, bx_)) = &best { report("the infeasible verdict is returned only when no assignment satisfies the text", format!("{:?} satisfies the text (objective {})", bx_, bo)); } }
+                Err(RoocSolverError::Solver(SolverError::Unbounded)) => report("bounded domains cannot give an unbounded verdict", String::new()),
+                Err(e) => { if best.is_some() { report("a solution is returned when a satisfying assignment exists", format!("{}", e)); } }
+            }
+        }
+        println!("WITNESS-SAMPLE {{\"continuous_solved\": {}, \"continuous_infeasible\": {}}}", csolved, cinf);
+        if csolved < 40 { println!("WITNESS-FAIL {{\"fn\": \"corpus\", \"clause\": \"vacuity guard: at least 40 continuous models solved\", \"solved\": {}}}", csolved); }
         if solved < 60 || infeasible < 5 { println!("WITNESS-FAIL {{\"fn\": \"corpus\", \"clause\": \"vacuity guard: at least 60 solved and 5 infeasible models\", \"solved\": {}, \"infeasible\": {}}}", solved, infeasible); }
         println!("WITNESS-SAMPLE {{\"solved\": {}, \"infeasible\": {}}}", solved, infeasible);
         println!("WITNESS-DONE cases={} distinct={}", cases, distinct.len());
